@@ -137,6 +137,36 @@ def check_modifiers(ctx, rep, tier):
                         'EventDecoder::new constructs modifier %s as %s (%s)' % (fname, term_str(v), leaf_where(lv[0])))
         else:
             rep.ob('initial modifier state', 1)
+    # every other place that constructs an EventDecoder (Keyboard::new, ...) must start from the same modifier state
+    for f in ctx.facts['fns']:
+        if f.get('derived') or f['path'] == f_new['path'] or f.get('kind') == 'Closure':
+            continue
+        builds = False
+        for body in iter_bodies(f):
+            for bb in body['blocks']:
+                for st_ in bb['stmts']:
+                    if st_['k'] == 'assign' and st_['rv']['k'] == 'agg' and st_['rv'].get('path') in (ED, 'Modifiers'):
+                        builds = True
+        calls_new = any(t_['k'] == 'call' and ((t_['fn'].get('fn') or {}).get('resolved') or {}).get('path') == f_new['path']
+                        for body in iter_bodies(f) for t_ in [bb['term'] for bb in body['blocks']])
+        if not (builds or calls_new):
+            continue
+        try:
+            e5 = Engine(ctx.prog)
+            for lf in e5.run(f['path']):
+                if lf.kind != 'return' or lf.ret is None:
+                    continue
+                for mods in find_modifiers(lf.ret):
+                    for fi, fname in enumerate(ctx.modfields):
+                        v = mods[3][fi]
+                        exp = 1 if keys['initial_modifiers'][fname] else 0
+                        ok = v[0] == 'c' and v[1] == exp
+                        rep.ob('initial modifier state', 1, 1 if ok else 0)
+                        if not ok:
+                            rep.finding('C04 initial %s in %s expected=%d got=%s' % (fname, f['path'].split('::')[-1], exp, term_str(v)),
+                                        '%s (at %s) builds an event decoder whose modifier %s starts as %s' % (f['path'], f['sp'], fname, term_str(v)))
+        except Undecided as u:
+            rep.finding('C04 constructor %s undecided' % f['path'], str(u))
     # who may write (DESIGN 3.4): every other body that writes / mutably borrows the modifiers is analysed too
     allowed = {m.f['path'], f_new['path']}
     w_mod = writers_of(ctx, 'Modifiers')
@@ -258,6 +288,21 @@ def check_modifiers(ctx, rep, tier):
     return m
 
 
+def find_modifiers(v, out=None, depth=0):
+    """all Modifiers values inside a resolved value (not following references)"""
+    if out is None:
+        out = []
+    if v is None or depth > 6:
+        return out
+    if v[0] == 'adt':
+        if v[1] == 'Modifiers':
+            out.append(v)
+        else:
+            for x in v[3]:
+                find_modifiers(x, out, depth + 1)
+    return out
+
+
 class _St:
     def __init__(self, doms):
         self.doms = doms
@@ -296,6 +341,17 @@ def check_decoding(ctx, rep, tier):
             rep.finding('C14 process_keyevent panics', leaf_where(lf))
             continue
         calls = lf.calls
+        # a key event never changes the Ctrl-handling mode or the installed layout (only the setters do)
+        fin = lf.cells[('H', 'self')]
+        ini = m.eng.deep(m.init, _St(lf.doms))
+        for fi, what in ((m.i_hc, 'Ctrl-handling mode'), (m.i_lay, 'installed layout')):
+            same = fin[3][fi] == ini[3][fi]
+            rep.ob('key events leave mode and layout alone', 1, 1 if same else 0)
+            if not same:
+                rep.finding('C14 process_keyevent changes %s' % what.split()[0].lower(),
+                            'processing (%s, %s) changes the %s to %s without any setter being called; %s' % (
+                                [ctx.keycodes[c] for c in sorted(lf.doms[m.code_atom])][:3], [ctx.keystates[x] for x in sorted(lf.doms[m.state_atom])],
+                                what, term_str(fin[3][fi]), leaf_where(lf)))
         for code in sorted(lf.doms[m.code_atom]):
             for state in sorted(lf.doms[m.state_atom]):
                 for r2 in sorted(lf.doms[rctrl2_atom]):
